@@ -344,7 +344,7 @@ func (t *tlFunc) resultUses(v ssa.Value, f func(ins ssa.Instruction, kind, tab s
 				if callee == nil || !t.e.inScope(callee) || callee.Blocks == nil {
 					continue
 				}
-				s := t.e.summary(callee, boolConstArgs(callee, u.Call.Args))
+				s := t.e.summary(callee, boolCtxArgs(t, callee, u.Call.Args))
 				for _, rq := range s.reqs {
 					if rq.valParam < len(u.Call.Args) && u.Call.Args[rq.valParam] == x && rq.tabParam < len(u.Call.Args) {
 						var idx ssa.Value
